@@ -45,7 +45,7 @@ static auto clip_array(const std::vector<long long>& v)
 }
 
 // bsm <menu> <a> <kb> <b>
-//   menu 0..3: constant shapes (2,3) (1,3) (3) (2,1,3)   (a must repeat the values; it is only echoed)
+//   menu 0..3, 6, 7: constant shapes (2,3) (1,3) (3) (2,1,3) (3,1) (2,3,1)   (a must repeat the values; it is only echoed)
 //   menu 4: tuple<clipped_size_t<2>, clipped_size_t<3>> holding the run-time values a (a[0]<=2, a[1]<=3)
 //   menu 5: nmtools_array<clipped_size_t<4>, N> holding the run-time values a (N = 1..3, values <= 4)
 VH_OP(bsm)
@@ -60,6 +60,9 @@ VH_OP(bsm)
     case 1: { const auto sa = nmtools_tuple{1_ct, 3_ct}; out.vec(vh::to_vec(sa)); pair_with(out, sa, kb, b, 0); } break;
     case 2: { const auto sa = nmtools_tuple{3_ct}; out.vec(vh::to_vec(sa)); pair_with(out, sa, kb, b, 0); } break;
     case 3: { const auto sa = nmtools_tuple{2_ct, 1_ct, 3_ct}; out.vec(vh::to_vec(sa)); pair_with(out, sa, kb, b, 0); } break;
+    // constant shapes with a TRAILING extent 1 (longer than a run-time partner: the 1 is paired with the partner's last axis)
+    case 6: { const auto sa = nmtools_tuple{3_ct, 1_ct}; out.vec(vh::to_vec(sa)); pair_with(out, sa, kb, b, 0); } break;
+    case 7: { const auto sa = nmtools_tuple{2_ct, 3_ct, 1_ct}; out.vec(vh::to_vec(sa)); pair_with(out, sa, kb, b, 0); } break;
     case 4: {
         if (a.size() != 2 || a[0] > 2 || a[1] > 3) { out.tok("ERR menu4"); return; }
         const auto sa = nmtools_tuple<nm::clipped_size_t<2>, nm::clipped_size_t<3>>{nm::clipped_size_t<2>{(size_t)a[0]}, nm::clipped_size_t<3>{(size_t)a[1]}};
